@@ -34,7 +34,7 @@ META = set('\\.+*?()|[]{}^$#&-~')
 
 def kw_regex(text, kind):
     """Keyword::to_regex for exact / wildcard keywords, as a Python regex"""
-    t = text.replace('\\"', '"')
+    t = text          # the literal text as written (the lexer's unescaping is done by the query printer's inverse)
     out = []
     for ch in t:
         if ch == ' ':
